@@ -200,6 +200,46 @@ def check(ctx):
                 if not any(b["kind"] == "correspondence" for b in build.broken):
                     build.broken.append({"kind": "correspondence", "name": "fs-crash: Lean DirFs/acRun model vs dir.go under disturbance",
                                          "detail": "scenario %s %s: code %s, model %s" % (sc["dist"][:40], res["inject"], res["got2"], det["model"])})
+        # ---- genuine short writes: the process may not write files beyond a size limit (RLIMIT_FSIZE, SIGXFSZ ignored), so a
+        #      write returns fewer bytes than asked and the next one fails with EFBIG
+        rnd = random.Random(ctx.seed + 99)
+        for limit, sz in ((4096, 10000), (64, 5000), (5000, 13000), (4096, 4096), (8192, 5000)):
+            for pre in ("none", "atomic"):
+                data, data2 = hexdata(rnd, sz), hexdata(rnd, 7)
+                prefix = ["newfs", "mkdir d1", "mkdir d2"] + (["atomic d1 a %s" % hexdata(rnd, 9)] if pre == "atomic" else []) + ["atomic d2 a %s" % hexdata(rnd, 4)]
+                seg1 = prefix + ["atomic d1 a %s" % data]
+                shutil.rmtree(os.path.join(scratch, "fsroot-dir"), ignore_errors=True)
+                got1 = C.hcorr("fs", "run", ["-impl", "dir", "-keeproot", "-scratch", scratch, "-fsize", str(limit)], input="\n".join(seg1) + "\n")
+                suffix, nf = fill_fds(seg1, ["list d1", "list d2", "open d2 a", "readat %(f0)d 0 100000"] + (["open d1 a", "readat %(f1)d 0 100000"] if (pre == "atomic" or sz <= limit) else []) +
+                                      ["atomic d1 a %s" % data2, "open d1 a", "readat %%(f%d)d 0 100000" % (2 if (pre == "atomic" or sz <= limit) else 1)])
+                got2 = C.hcorr("fs", "run", ["-impl", "dir", "-keeproot", "-scratch", scratch, "-fdbase", str(nf)], input="\n".join(suffix) + "\n")
+                stats["short_write_scenarios"] += 1
+                fits = sz <= limit
+                ref_ops = prefix + (["atomic d1 a %s" % data] if fits else []) + suffix
+                want = c12.model_run("ref", ref_ops)[len(prefix) + (1 if fits else 0):]
+                ok = got2 == want and got1[-1:] == (["ok"] if fits else ["panic"])
+                if not ok and not found:
+                    found = True
+                    stats["spec_failures"] += 1
+                    ctx.violation("counterexample", "AtomicCreate under a file-size limit (short write, then EFBIG) vs all-or-nothing",
+                                  {"proto": "fs-fsize", "prefix": prefix, "call": "atomic d1 a <%d bytes>" % sz, "limit": limit, "suffix": suffix},
+                                  expected={"call": "ok" if fits else "panic (the error surfaces)", "afterwards": want},
+                                  observed={"call": got1[-1:], "afterwards": got2})
+        # ---- leftovers under the very temporary names the next calls will use (a crashed process with a recycled pid):
+        #      longer than the new data, so a missing O_TRUNC shows
+        for sz, left in ((2, 300), (18, 1024), (0, 7), (5000, 9000)):
+            data = hexdata(rnd, sz)
+            ops = ["newfs", "mkdir d1", "plant a %s" % hexdata(rnd, left), "atomic d1 a %s" % data, "open d1 a", "readat 0 0 100000",
+                   "atomic d1 a %s" % data, "open d1 a", "readat 1 0 100000", "list d1"]
+            shutil.rmtree(os.path.join(scratch, "fsroot-dir"), ignore_errors=True)
+            got = C.hcorr("fs", "run", ["-impl", "dir", "-scratch", scratch], input="\n".join(ops) + "\n")
+            stats["leftover_scenarios"] += 1
+            want = ["ok", "ok", "ok", "ok", "fd 0", "bytes %s" % data, "ok", "fd 1", "bytes %s" % data, "names a"]
+            if got != want and not found:
+                found = True
+                stats["spec_failures"] += 1
+                ctx.violation("counterexample", "AtomicCreate over a leftover temporary file of the same name (earlier interrupted call, recycled pid)",
+                              {"proto": "fs-leftover", "ops": ops}, expected=want, observed=got)
     finally:
         shutil.rmtree(scratch, ignore_errors=True)
     # interference: concurrent creators of different names / in different directories / of one name,
